@@ -300,3 +300,21 @@ PLAN["C09"] = {
                  {"test": "TestC09_Deletion", "checks": 120, "shards": 6, "timeout": 3000},
                  {"fuzz": "FuzzProveBody", "fuzztime": "150s", "workers": 8, "timeout": 1200}],
 }
+
+PLAN["C20"] = {
+    "level": "exploration",
+    "rule": ("rapid state machine on a FRESH in-process server (fresh registry) per case, real depth-3/batch-2 system: 1-6 steps from {send one request, send a concurrent burst of 2-8 requests while a scraper polls /metrics continuously, "
+             "scrape now, wait-for-idle}. Requests come from the C09 grammar (all methods; valid, unsatisfiable, malformed, mis-shaped, gray bodies; thorough adds non-standard methods, labelled 'unknown'). Model = the client's tally "
+             "(lower-cased method, status code) -> number of completed responses. Oracle: at every wait-for-idle and at the end, /metrics is polled (<= 20 s, early exit; the counter is incremented after the response bytes are sent) until "
+             "http_requests_total{endpoint_pattern=\"/prove\"} equals the tally for every label pair with no extra pairs and http_requests_in_flight reads 0; every scrape (including those during bursts) answers 200 within 5 s on the metrics "
+             "address; no counter ever decreases between scrapes; when >= 3 scrapes completed strictly inside the lifetime of a request that returned a proof, at least one of them read in-flight >= 1. "
+             "Non-trivial = a history with a concurrent burst, or >= 2 distinct (method, code) pairs including a 200 and an error; distinct = SHA-1 of the canonical history."),
+    "assumptions": A_COMMON + ["the in-flight >= 1 observation is only required when scrapes provably overlapped a proof (client-side timestamps with 50 ms margins), so scheduling noise cannot fail it"],
+    "technique": "model-based stateful property testing (client-side tally vs. scraped Prometheus series), with concurrent bursts and polling to a fixed point",
+    "level_text": "Exploration: dozens of generated request histories per mode per run, each on a fresh server; exact equality of per-label totals, in-flight return to zero, availability under load and monotonicity are asserted.",
+    "level_note": "timing enters only through polling bounds (20 s / 5 s) far above measured latencies; a bound being hit without a completed comparison is reported as a violation only for availability",
+    "quick": [{"test": "TestC20_Deletion", "checks": 30, "timeout": 900},
+              {"test": "TestC20_Insertion", "checks": 20, "timeout": 900}],
+    "thorough": [{"test": "TestC20_Deletion", "checks": 100, "shards": 5, "timeout": 3000},
+                 {"test": "TestC20_Insertion", "checks": 100, "shards": 5, "timeout": 3000}],
+}
